@@ -225,3 +225,128 @@ theorem loop2_spec (bits r : Nat) (hr : 2 ≤ r) (hr36 : r ≤ 36) (hb64 : bits 
       simp
 
 end LexVerif.Model.WriteInt
+
+namespace LexVerif.Model.WriteInt
+open LexVerif.Spec
+
+theorem sq_le_36 (r : Nat) (h : r ≤ 36) : r * r ≤ 1296 := Nat.mul_le_mul h h
+theorem r32 (r : Nat) (h : r ≤ 36) : r * r % 2 ^ 32 = r * r := Nat.mod_eq_of_lt (by have := sq_le_36 r h; omega)
+theorem r4_le (r : Nat) (h : r ≤ 36) : (r * r) * (r * r) ≤ 1679616 := Nat.mul_le_mul (sq_le_36 r h) (sq_le_36 r h)
+theorem r432 (r : Nat) (h : r ≤ 36) : (r * r) * (r * r) % 2 ^ 32 = (r * r) * (r * r) :=
+  Nat.mod_eq_of_lt (by have := r4_le r h; omega)
+
+/-- the last one or two digits -/
+theorem final_spec (r v : Nat) (hr : 2 ≤ r) (hr36 : r ≤ 36) (hv : v < r * r) (pre suf : List Nat)
+    (hlen : (toDigits r v).length ≤ pre.length) (hp64 : pre.length < 2 ^ 64) :
+    ∃ pre', pre'.length + (toDigits r v).length = pre.length ∧
+      (if v < r then put1 (pre ++ suf) pre.length (v % 2 ^ 32) else put2 r (pre ++ suf) pre.length (2 * v % usz)) =
+        .ok (pre' ++ numeral r v ++ suf, pre'.length) := by
+  by_cases h : v < r
+  · rw [if_pos h, Nat.mod_eq_of_lt (by omega : v < 2 ^ 32)]
+    rw [toDigits_lt r v h] at hlen ⊢
+    obtain ⟨p, hpl, hput⟩ := put1_spec v pre suf (by omega) (by simpa using hlen) hp64
+    exact ⟨p, by simpa using hpl, by rw [hput]; simp [numeral, toDigits_lt r v h]⟩
+  · have hd : toDigits r v = [v / r, v % r] := by
+      rw [toDigits_step r v hr (by omega), toDigits_lt r (v / r) (Nat.div_lt_of_lt_mul hv)]; rfl
+    rw [hd] at hlen ⊢
+    have h2v : 2 * v % usz = 2 * v := Nat.mod_eq_of_lt (by unfold usz; have := sq_le_36 r hr36; omega)
+    rw [if_neg h, h2v]
+    obtain ⟨p, hpl, hput⟩ := put2_spec r v pre suf hv (by simpa using hlen) hp64
+    exact ⟨p, by simpa using hpl, by rw [hput]; simp [numeral, hd, pair]⟩
+
+theorem writeDigits_eq (bits value radix : Nat) (buf : Buf) (index : Nat) :
+    writeDigits bits value radix buf index =
+      if ¬ (2 ≤ radix ∧ radix ≤ 36) then .panic else
+      if tableLen radix < radix * radix % 2 ^ 32 * 2 then .panic else
+      ((if bits ≥ 32 ∨ (radix * radix % 2 ^ 32) * (radix * radix % 2 ^ 32) % 2 ^ 32 < maxAsU32 bits then
+          loop4 bits radix (radix * radix % 2 ^ 32 % 2 ^ bits)
+            ((radix * radix % 2 ^ 32) * (radix * radix % 2 ^ 32) % 2 ^ 32 % 2 ^ bits) loopFuel value buf index
+        else Res.ok (value, buf, index)) >>= fun x =>
+       (if bits ≥ 16 ∨ radix * radix % 2 ^ 32 < maxAsU32 bits then
+          loop2 bits radix (radix * radix % 2 ^ 32 % 2 ^ bits) loopFuel x.1 x.2.1 x.2.2
+        else Res.ok x) >>= fun y =>
+       if y.1 < radix % 2 ^ bits then put1 y.2.1 y.2.2 (y.1 % 2 ^ 32)
+       else put2 radix y.2.1 y.2.2 (2 * y.1 % usz)) := rfl
+
+/-- `write_digits` writes the canonical numeral of `value` immediately below `index` -/
+theorem writeDigits_spec (bits r value : Nat) (hr : 2 ≤ r) (hr36 : r ≤ 36) (hb8 : 8 ≤ bits) (hb64 : bits ≤ 64)
+    (hv : value < 2 ^ bits)
+    (H4 : (bits ≥ 32 ∨ (r * r) * (r * r) < maxAsU32 bits) → (r * r) * (r * r) < 2 ^ bits ∧ 2 * (r * r) ≤ 2 ^ bits)
+    (H2 : (bits ≥ 16 ∨ r * r < maxAsU32 bits) → r * r < 2 ^ bits ∧ ∀ v, v < 2 ^ bits → 2 * (v % (r * r)) < 2 ^ bits)
+    (HN2 : ¬ (bits ≥ 16 ∨ r * r < maxAsU32 bits) → 2 ^ bits ≤ r * r)
+    (pre suf : List Nat) (hlen : (toDigits r value).length ≤ pre.length) (hp64 : pre.length < 2 ^ 64) :
+    ∃ pre', pre'.length + (toDigits r value).length = pre.length ∧
+      writeDigits bits value r (pre ++ suf) pre.length = .ok (pre' ++ numeral r value ++ suf, pre'.length) := by
+  have hfuel : value < 2 ^ loopFuel :=
+    Nat.lt_of_lt_of_le hv (Nat.pow_le_pow_right (by omega) (by unfold loopFuel; omega))
+  have hf1 : 1 ≤ loopFuel := by unfold loopFuel; omega
+  have hrT : r % 2 ^ bits = r := Nat.mod_eq_of_lt (by
+    have : (2:Nat) ^ 8 ≤ 2 ^ bits := Nat.pow_le_pow_right (by omega) hb8
+    omega)
+  have htab : ¬ tableLen r < r * r * 2 := by unfold tableLen; rw [Nat.mul_assoc]; omega
+  rw [writeDigits_eq, if_neg (by simp [hr, hr36]), r32 r hr36, r432 r hr36, if_neg htab, hrT]
+  -- stage 1: the 4-digit loop
+  have st1 : ∃ v1 ds1 pre1, toDigits r value = toDigits r v1 ++ ds1 ∧ v1 ≤ value ∧
+      pre1.length + ds1.length = pre.length ∧
+      (if bits ≥ 32 ∨ r * r * (r * r) < maxAsU32 bits then
+          loop4 bits r (r * r % 2 ^ bits) (r * r * (r * r) % 2 ^ bits) loopFuel value (pre ++ suf) pre.length
+        else Res.ok (value, pre ++ suf, pre.length)) = .ok (v1, pre1 ++ ds1.map digitChar ++ suf, pre1.length) := by
+    by_cases c4 : bits ≥ 32 ∨ r * r * (r * r) < maxAsU32 bits
+    · obtain ⟨h4a, h4b⟩ := H4 c4
+      have hR2 : r * r % 2 ^ bits = r * r := Nat.mod_eq_of_lt (by omega)
+      rw [if_pos c4, hR2, Nat.mod_eq_of_lt h4a]
+      obtain ⟨v', ds, pre', _, hd, hl, hrun⟩ :=
+        loop4_spec bits r hr hr36 h4b hb64 value loopFuel pre suf hfuel hf1 hlen hp64
+      refine ⟨v', ds, pre', hd, ?_, hl, hrun⟩
+      -- v' ≤ value because its numeral is a prefix
+      have := ofDigits_toDigits r value hr
+      rw [hd, ofDigits_append] at this
+      have hmono : ∀ (l : List Nat) (a : Nat), a ≤ l.foldl (fun acc d => acc * r + d) a := by
+        intro l; induction l with
+        | nil => intro a; simp
+        | cons x xs ih =>
+          intro a; simp only [List.foldl_cons]
+          exact Nat.le_trans (by
+            calc a = a * 1 := by simp
+              _ ≤ a * r := Nat.mul_le_mul_left a (by omega)
+              _ ≤ a * r + x := Nat.le_add_right _ _) (ih _)
+      have h1 := hmono ds (ofDigits r (toDigits r v'))
+      rw [ofDigits_toDigits r v' hr] at h1 this
+      omega
+    · rw [if_neg c4]
+      exact ⟨value, [], pre, by simp, Nat.le_refl _, by simp, by simp⟩
+  obtain ⟨v1, ds1, pre1, hd1, hv1, hl1, hrun1⟩ := st1
+  rw [hrun1, bind_ok]
+  simp only []
+  have hv1b : v1 < 2 ^ bits := by omega
+  have hlen1 : (toDigits r v1).length ≤ pre1.length := by
+    rw [hd1] at hlen; simp at hlen; omega
+  -- stage 2: the 2-digit loop
+  have st2 : ∃ v2 ds2 pre2, toDigits r v1 = toDigits r v2 ++ ds2 ∧ v2 < r * r ∧
+      pre2.length + ds2.length = pre1.length ∧
+      (if bits ≥ 16 ∨ r * r < maxAsU32 bits then
+          loop2 bits r (r * r % 2 ^ bits) loopFuel v1 (pre1 ++ ds1.map digitChar ++ suf) pre1.length
+        else Res.ok (v1, pre1 ++ ds1.map digitChar ++ suf, pre1.length)) =
+        .ok (v2, pre2 ++ ds2.map digitChar ++ (ds1.map digitChar ++ suf), pre2.length) := by
+    by_cases c2 : bits ≥ 16 ∨ r * r < maxAsU32 bits
+    · obtain ⟨h2a, h2b⟩ := H2 c2
+      rw [if_pos c2, Nat.mod_eq_of_lt h2a, List.append_assoc]
+      obtain ⟨v', ds, pre', hv', hd, hl, hrun⟩ :=
+        loop2_spec bits r hr hr36 hb64 h2b v1 loopFuel pre1 (ds1.map digitChar ++ suf) hv1b
+          (Nat.lt_of_le_of_lt hv1 hfuel) hf1 hlen1 (by omega)
+      exact ⟨v', ds, pre', hd, hv', hl, hrun⟩
+    · rw [if_neg c2]
+      have := HN2 c2
+      exact ⟨v1, [], pre1, by simp, by omega, by simp, by simp⟩
+  obtain ⟨v2, ds2, pre2, hd2, hv2, hl2, hrun2⟩ := st2
+  rw [hrun2, bind_ok]
+  simp only []
+  have hlen2 : (toDigits r v2).length ≤ pre2.length := by
+    rw [hd2] at hlen1; simp at hlen1; omega
+  obtain ⟨pre3, hl3, hfin⟩ := final_spec r v2 hr hr36 hv2 pre2 (ds2.map digitChar ++ (ds1.map digitChar ++ suf))
+    hlen2 (by omega)
+  refine ⟨pre3, ?_, ?_⟩
+  · rw [hd1, hd2]; simp; omega
+  · rw [List.append_assoc, hfin]; simp [numeral, hd1, hd2]
+
+end LexVerif.Model.WriteInt
